@@ -63,6 +63,12 @@ Init ==
   /\ buf = NoBuf /\ dpos = 0 /\ intact = TRUE /\ mitm = 0 /\ nsmall = 0
   /\ res = [op |-> "init"]
 
+\* behaviours that start right after an untouched handshake (used for simulation of the stream phase)
+InitStream ==
+  /\ phase = "stream" /\ frames = <<>> /\ wire = <<>> /\ closed = FALSE /\ recvNonce = 1
+  /\ buf = NoBuf /\ dpos = 0 /\ intact = TRUE /\ mitm = 0 /\ nsmall = 0
+  /\ res = [op |-> "init"]
+
 -----------------------------------------------------------------------------------
 (* Handshake *)
 
@@ -186,42 +192,46 @@ Truncate(p, mid) ==  \* the stream ends before frame p (mid: after some but not 
 -----------------------------------------------------------------------------------
 (* Stream: reader B *)
 
-\* the effect of one Read(data) with len(data) = b; r is the reply class, n the byte count returned
-ReadEffect(b, r, n) ==
-  IF buf.len > 0 THEN                       \* served from recvBuffer
-    /\ r = "ok" /\ n = Min(b, buf.len)
-    /\ intact' = (intact /\ buf.off = dpos)
-    /\ dpos' = dpos + n
-    /\ buf' = [off |-> buf.off + n, len |-> buf.len - n]
-    /\ UNCHANGED <<wire, recvNonce>>
-  ELSE IF wire = <<>> THEN                  \* io.ReadFull on a closed, empty stream
-    /\ closed /\ r = "eof" /\ n = 0
-    /\ UNCHANGED <<wire, recvNonce, buf, dpos, intact>>
-  ELSE IF Head(wire) = PART THEN            \* io.ReadFull hits the end inside a frame
-    /\ r = "ueof" /\ n = 0 /\ wire' = Tail(wire)
-    /\ UNCHANGED <<recvNonce, buf, dpos, intact>>
-  ELSE IF Head(wire) # recvNonce THEN       \* secretbox.Open fails; the nonce is NOT advanced
-    /\ r = "decrypt" /\ n = 0 /\ wire' = Tail(wire)
-    /\ UNCHANGED <<recvNonce, buf, dpos, intact>>
-  ELSE LET f == frames[Head(wire)] IN       \* opened: copy what fits, keep the rest
-    /\ r = "ok" /\ n = Min(b, f.len)
-    /\ intact' = (intact /\ f.off = dpos)
-    /\ dpos' = dpos + n
-    /\ buf' = [off |-> f.off + n, len |-> f.len - n]
-    /\ wire' = Tail(wire) /\ recvNonce' = recvNonce + 1
+\* One Read(data) with len(data) = b.  Reply class and byte count are functions of the state:
+ReadR(b) == IF buf.len > 0 THEN "ok"
+            ELSE IF wire = <<>> THEN "eof"                      \* io.ReadFull on a closed, empty stream
+            ELSE IF Head(wire) = PART THEN "ueof"               \* io.ReadFull hits the end inside a frame
+            ELSE IF Head(wire) # recvNonce THEN "decrypt"       \* secretbox.Open fails
+            ELSE "ok"
+ReadN(b) == IF buf.len > 0 THEN Min(b, buf.len)
+            ELSE IF wire # <<>> /\ Head(wire) = recvNonce THEN Min(b, frames[Head(wire)].len)
+            ELSE 0
 
-Read(b, r, n) ==
+Read(b) ==
+  LET r == ReadR(b)
+      n == ReadN(b) IN
   /\ phase = "stream"
   /\ b >= DataMax \/ nsmall < MaxSmall
-  /\ ReadEffect(b, r, n)
+  /\ (buf.len = 0 /\ wire = <<>>) => closed     \* otherwise the call blocks
+  /\ IF buf.len > 0 THEN                        \* served from recvBuffer
+       /\ intact' = (intact /\ buf.off = dpos)
+       /\ dpos' = dpos + n
+       /\ buf' = [off |-> buf.off + n, len |-> buf.len - n]
+       /\ UNCHANGED <<wire, recvNonce>>
+     ELSE IF r = "eof" THEN
+       UNCHANGED <<wire, recvNonce, buf, dpos, intact>>
+     ELSE IF r \in {"ueof", "decrypt"} THEN       \* the frame is consumed; the nonce is NOT advanced
+       /\ wire' = Tail(wire)
+       /\ UNCHANGED <<recvNonce, buf, dpos, intact>>
+     ELSE LET f == frames[Head(wire)] IN         \* opened: copy what fits, keep the rest
+       /\ intact' = (intact /\ f.off = dpos)
+       /\ dpos' = dpos + n
+       /\ buf' = [off |-> f.off + n, len |-> f.len - n]
+       /\ wire' = Tail(wire) /\ recvNonce' = recvNonce + 1
   /\ nsmall' = IF b < DataMax THEN nsmall + 1 ELSE nsmall
   /\ res' = [op |-> "Read", b |-> b, r |-> r, n |-> n]
   /\ UNCHANGED <<phase, frames, closed, mitm>>
 
-\* a consumer loop: Reads with the same buffer until recvBuffer is empty (calls of them, total bytes)
-Drain(b, calls, total) ==
+\* a consumer loop: Reads with the same buffer until recvBuffer is empty
+Drain(b) ==
+  LET total == buf.len
+      calls == (buf.len + b - 1) \div b IN
   /\ phase = "stream" /\ buf.len > 0
-  /\ total = buf.len /\ calls = (buf.len + b - 1) \div b
   /\ intact' = (intact /\ buf.off = dpos)
   /\ dpos' = dpos + total
   /\ buf' = [off |-> buf.off + total, len |-> 0]
@@ -232,12 +242,11 @@ Next ==
   \/ \E toA \in {"eB", "eM"}, toB \in {"eA", "eM"}, a1 \in AuthChoices, a2 \in AuthChoices,
         rA \in {"ok:peer", "ok:self", "ok:M", "errDecrypt", "errVerify"},
         rB \in {"ok:peer", "ok:self", "ok:M", "errDecrypt", "errVerify"} : Handshake(toA, toB, a1, a2, rA, rB)
-  \/ \E sz \in WriteSizes, k \in 0..MaxFrames : Write(sz, k)
+  \/ \E sz \in WriteSizes : \E k \in {NFrames(sz)} : Write(sz, k)
   \/ \E p \in 1..(MaxWire + 1) : Flip(p) \/ Drop(p) \/ Dup(p) \/ Swap(p) \/ Inject(p)
                                    \/ \E mid \in BOOLEAN : Truncate(p, mid)
   \/ \E k \in 1..MaxFrames : Replay(k)
-  \/ \E b \in ReadBufs, r \in {"ok", "decrypt", "eof", "ueof"}, n \in 0..DataMax : Read(b, r, n)
-  \/ \E b \in ReadBufs, c \in 1..DataMax, t \in 1..DataMax : Drain(b, c, t)
+  \/ \E b \in ReadBufs : Read(b) \/ Drain(b)
 
 Spec == Init /\ [][Next]_vars
 
